@@ -209,7 +209,7 @@ class CallsMixin:
         if key in ("String::from", "str::to_string"):
             return ip.deref(A()[0])
         if key in ("Box::new", "Arc::new", "Rc::new", "RwLock::new", "Mutex::new", "RefCell::new", "Cell::new",
-                   "Reverse", "cmp::Reverse"):
+                   "Reverse", "cmp::Reverse", "AtomicU64::new", "AtomicUsize::new", "AtomicBool::new", "AtomicI64::new"):
             v = A([hint])[0]
             if last == "Reverse":
                 return St("Reverse", {"0": ip.deref(v)})
@@ -265,8 +265,8 @@ class CallsMixin:
             return self.cast(x, t)
         if key in ("f64::from",):
             return self.to_f(ip.deref(A()[0]))
-        if last in ("from", "into") and t in ip.methods and "from" in ip.methods.get(t, {}):
-            return ip.call_item(ip.methods[t]["from"], A(), t)
+        if last in ("from", "into") and t in ip.froms:
+            return ip.convert_into(A()[0], t)
         raise Unsupported("call of %s" % "::".join(names))
 
     def default_like(self, v):
